@@ -5,6 +5,7 @@ import (
 	"go/token"
 	"reflect"
 	"strings"
+	"sync"
 
 	"github.com/ipfs/go-cid"
 	"github.com/ipld/go-ipld-prime/datamodel"
@@ -413,8 +414,26 @@ func init() {
 // TODO: we should probably avoid re-spawning the same types if the TypeSystem
 // has them, and test that that works as expected
 
+// inferredSchemas remembers the schema type inferred for each Go type,
+// so that binding the same Go type again reuses it
+// instead of declaring its name in defaultTypeSystem a second time (which panics).
+// inferredMu guards it and the accumulation into defaultTypeSystem.
+var (
+	inferredMu      sync.Mutex
+	inferredSchemas = make(map[reflect.Type]schema.Type)
+)
+
 // inferSchema can build a schema from a Go type
 func inferSchema(typ reflect.Type, level int) schema.Type {
+	inferredMu.Lock()
+	defer inferredMu.Unlock()
+	return inferSchemaLocked(typ, level)
+}
+
+func inferSchemaLocked(typ reflect.Type, level int) schema.Type {
+	if typSchema, ok := inferredSchemas[typ]; ok {
+		return typSchema
+	}
 	if level > maxRecursionLevel {
 		panic(fmt.Sprintf("inferSchema: refusing to recurse past %d levels", maxRecursionLevel))
 	}
@@ -438,7 +457,7 @@ func inferSchema(typ reflect.Type, level int) schema.Type {
 		for i := range fieldsSchema {
 			field := typ.Field(i)
 			ftyp := field.Type
-			ftypSchema := inferSchema(ftyp, level+1)
+			ftypSchema := inferSchemaLocked(ftyp, level+1)
 			fieldsSchema[i] = schema.SpawnStructField(
 				field.Name, // TODO: allow configuring the name with tags
 				ftypSchema.Name(),
@@ -454,6 +473,7 @@ func inferSchema(typ reflect.Type, level int) schema.Type {
 		}
 		typSchema := schema.SpawnStruct(name, fieldsSchema, nil)
 		defaultTypeSystem.Accumulate(typSchema)
+		inferredSchemas[typ] = typSchema
 		return typSchema
 	case reflect.Slice:
 		if typ.Elem().Kind() == reflect.Uint8 {
@@ -465,13 +485,14 @@ func inferSchema(typ reflect.Type, level int) schema.Type {
 		if typ.Elem().Kind() == reflect.Ptr {
 			nullable = true
 		}
-		etypSchema := inferSchema(typ.Elem(), level+1)
+		etypSchema := inferSchemaLocked(typ.Elem(), level+1)
 		name := typ.Name()
 		if name == "" {
 			name = "List_" + etypSchema.Name()
 		}
 		typSchema := schema.SpawnList(name, etypSchema.Name(), nullable)
 		defaultTypeSystem.Accumulate(typSchema)
+		inferredSchemas[typ] = typSchema
 		return typSchema
 	case reflect.Interface:
 		// these types must match exactly since we need symmetry of being able to
